@@ -5,7 +5,6 @@ mod c31;
 mod c32;
 mod c36;
 mod fakebus;
-mod probe;
 mod sched;
 
 use std::io::{BufRead, BufWriter, Write};
@@ -32,6 +31,11 @@ fn run_file(f: fn(&J) -> J, cases: &str, out: &str) {
                     .cloned()
                     .or_else(|| p.downcast_ref::<&str>().map(|s| s.to_string()))
                     .unwrap_or_default();
+                if msg.contains("HARNESS:") {
+                    // a failure of the harness itself is a tool failure, never an observation
+                    eprintln!("harness failure on case {}: {}", case["id"], msg);
+                    std::process::exit(3);
+                }
                 json!({"ev":"Panic","id":case["id"],"case":case,"msg":msg})
             }
         };
@@ -44,8 +48,6 @@ fn main() {
     let args: Vec<String> = std::env::args().collect();
     let a = |i: usize| args.get(i).map(|s| s.as_str()).unwrap_or("");
     match a(1) {
-        "probe" => probe::run(),
-        "refetch" => probe::refetch(),
         "c31" => run_file(c31::run_case, a(2), a(3)),
         "c32" => run_file(c32::run_case, a(2), a(3)),
         "c36" => run_file(c36::run_case, a(2), a(3)),
